@@ -8,10 +8,15 @@ import tempfile
 VERIF = os.path.dirname(os.path.dirname(os.path.abspath(__file__)))
 
 
+_applied = False
+
+
 def apply_from_env(spec):
+    global _applied
     idx = os.environ.get("VERIF_CANARY")
-    if idx is None or idx == "":
+    if idx is None or idx == "" or _applied:
         return
+    _applied = True  # once per worker process
     name, patch = spec.CANARIES[int(idx)]
     patch()
 
